@@ -22,6 +22,9 @@ EXPLANATION = (
     "slice widths. R04.7: operator routing (*, @, ~, point*matrix). Not decided: floating-point error; regex behaviour on "
     "exotic white space."
 )
+TECHNIQUE = (
+    "static analysis (no execution): regex alternatives vs dispatch keys; argument-kind classification per branch with helper call-site expansion; centre sandwiches by partial evaluation over (centre zero?) scenarios; matrix formulas as exact rational-function identities"
+)
 ASSUMPTIONS = [
     "SVG 1.1 section 7.4: matrix(a b c d e f) maps (x, y) to (a x + c y + e, b x + d y + f).",
     "Floating-point round-off is not modelled; formulas are compared as exact rational functions.",
